@@ -32,6 +32,7 @@ type Op struct {
 	D    int    `json:"d,omitempty"`    // data index
 	Ds   []int  `json:"ds,omitempty"`   // data indices (renew, migrate)
 	Mode string `json:"mode,omitempty"` // store: new|update|force
+	Cm   string `json:"cm,omitempty"`   // report: explicit commit id of the fault
 	Base string `json:"base,omitempty"` // store: latest|stale|empty|embed|prefix|short|sep
 	Rep  int32  `json:"rep,omitempty"`
 	Dur  uint64 `json:"dur,omitempty"`
@@ -606,6 +607,9 @@ func (e *Env) build(op *Op) (*Built, string) {
 			if ok {
 				f.CommitId = o.Commit
 			}
+		}
+		if op.Cm != "" && op.K == "report" {
+			f.CommitId = op.Cm
 		}
 		prov := acc.AddrS
 		if op.Mis == "provider" {
